@@ -107,16 +107,19 @@ def rule_M(ctx):
     kinds = {'Python float': float, 'numpy.float64 scalar': NpF64, 'numpy.float32 scalar': NpF32}
     TrackS, _, _ = _track_model(ctx, fn)
     tr, afs, afo, thr, mode = f.params[:5]
-    rel = {'below': -5.0, 'equal': 0.0, 'above': 5.0, 'nan': None}
+    rel = {'below': -5.0, 'equal': 0.0, 'above': 5.0, 'nan': None, 'next float above': 'up', 'next float below': 'down'}
     bad = []
     total = 0
     for (mname, mval), (kname, kind) in itertools.product(consts.items(), kinds.items()):
-        for n in (1, 2, 3) if kind is float else (1, 2):
+        for n in (1, 2) if kind is not float else (1, 2, 3):
             thresholds = [10.0 * (k + 1) for k in range(n)]          # distinct thresholds: a value paired with the wrong one shows
             for combo in itertools.product(rel, repeat=n):
                 names = ['f%d' % k for k in range(n)]
                 # two observations: the case under test and an all-below one (a marker must not leak from one observation to the next)
-                cols = {nm: [(float('nan') if kind is float else kind(NAN)) if rel[c] is None else kind(thresholds[k] + rel[c]), kind(thresholds[k] - 5.0)] for k, (nm, c) in enumerate(zip(names, combo))}
+                if kind is not float and any(isinstance(rel[c], str) for c in combo):
+                    continue
+                val_of = lambda k, c: (math.nextafter(thresholds[k], math.inf if rel[c] == 'up' else -math.inf) if isinstance(rel[c], str) else thresholds[k] + rel[c])
+                cols = {nm: [(float('nan') if kind is float else kind(NAN)) if rel[c] is None else kind(val_of(k, c)), kind(thresholds[k] - 5.0)] for k, (nm, c) in enumerate(zip(names, combo))}
                 t = TrackS(2, cols)
                 try:
                     orders.make_func(f.node, fn)(**{tr: t, afs: list(names), afo: 'OUT', thr: list(thresholds), mode: mval})
@@ -127,14 +130,36 @@ def rule_M(ctx):
                     continue
                 total += 1
                 live = [c for c in combo if c != 'nan']
+                above = ('above', 'next float above')
                 if mname.endswith('AND'):
-                    want = 1 if any(c == 'above' for c in live) else 0
+                    want = 1 if any(c in above for c in live) else 0
                 else:
-                    want = 1 if all(c == 'above' for c in live) else 0
+                    want = 1 if all(c in above for c in live) else 0
                 got = t.feats.get('OUT')
                 if (got is None or got[0] != want or got[1] != 0) and len(bad) < 6:
                     bad.append({'mode': mname, 'values held as': kname, 'feature values vs their thresholds (observation 0)': list(combo), 'thresholds': thresholds,
                                 'markers (observation 0, all-below observation 1)': got, 'expected': [want, 0]})
+    # through the collection (TrackCollection.segmentation marks every track of the collection, in the requested mode)
+    TCc = absint.classref(ctx, 'tracklib.core.track_collection.TrackCollection', fn)
+    if 'segmentation' in ctx.prog.cls('tracklib.core.track_collection.TrackCollection').methods:
+        for mname, mval in consts.items():
+            ta = TrackS(3, {'f0': [15.0, 5.0, 15.0], 'f1': [25.0, 25.0, 5.0]})
+            tb = TrackS(2, {'f0': [NAN, 15.0], 'f1': [NAN, 25.0]})
+            try:
+                TCc([ta, tb]).call('segmentation', ['f0', 'f1'], 'OUT', [10.0, 20.0], mval)
+            except orders.Unsupported as e:
+                raise shape_error('TrackCollection.segmentation not interpretable: %s' % e, f.loc())
+            except (IndexError, KeyError, TypeError, AttributeError) as e:
+                bad.append({'mode': mname, 'through': 'TrackCollection.segmentation', 'exception': '%s: %s' % (type(e).__name__, e)})
+                continue
+            total += 1
+            exceeds = [[True, True], [False, True], [True, False]], [[None, None], [True, True]]
+            fold = (lambda xs: any(x for x in xs if x is not None)) if mname.endswith('AND') else (lambda xs: all(x for x in xs if x is not None))
+            for t_, ex_, tn in ((ta, exceeds[0], 'first track'), (tb, exceeds[1], 'second track')):
+                want = [1 if fold(e_) else 0 for e_ in ex_]
+                if t_.feats.get('OUT') != want and len(bad) < 6:
+                    bad.append({'mode': mname, 'through': 'TrackCollection.segmentation(features f0, f1; thresholds 10, 20)', 'track': tn,
+                                'does each feature exceed its threshold (None: NaN)': ex_, 'markers': t_.feats.get('OUT'), 'expected': want})
     # the same feature listed twice with two thresholds: each occurrence is compared with ITS threshold (the pairing is by position)
     for mname, mval in consts.items():
         for thr_, vals in (([10.0, 20.0], [5.0, 15.0, 25.0]), ([20.0, 10.0], [5.0, 15.0, 25.0]), ([10.0, 20.0, 30.0], [5.0, 15.0, 25.0, 35.0])):
